@@ -485,6 +485,8 @@ def run(ctx: fw.Ctx) -> int:
     ctx.matchers = dict(MATCHERS)
     clock.install()
     import logging
+    import warnings
+    warnings.filterwarnings('ignore', category=RuntimeWarning, message='coroutine .* was never awaited')
     logging.getLogger('kopf').setLevel(logging.CRITICAL + 1)
     logging.getLogger('asyncio').setLevel(logging.CRITICAL + 1)
     ctx.proofs()
@@ -493,15 +495,48 @@ def run(ctx: fw.Ctx) -> int:
         ctx.correspondence_break('model build', logtxt[-1500:])
         return ctx.finish(RULE)
 
-    ev = event_cases(ctx, ctx.scale(1500, 30000))
+    ev = event_cases(ctx, ctx.scale(1500, 20000))
     ctx.differential('event', HEADER, ev, shard=150)
     ka = keepalive_cases(ctx)
     ctx.differential('keepalive', HEADER, ka, shard=150)
     ctx.cov['exhaustive'] = {'keepalive': 'lifetime 0..120 x jitter 5..10 = 726 runs of the real keepalive()'}
 
-    pn.run_networks(ctx, NET_HEADER, ctx.scale(150, 4000))
+    pn.run_networks(ctx, NET_HEADER, ctx.scale(120, 1200))
+    pn.run_worlds(ctx, ctx.scale(40, 600))
     return ctx.finish(RULE, level_note=[
+        'whole-operator scenarios (kv.sim + kv.fakeapi: real kopf.operator() x 2-3 on one ClusterKopfPeering) are monitor-only',
         "int(str) and iso8601.parse_date are oracles (their values on the strings of each case are supplied to the model)",
         'one wall clock shared by all operators (kv.clock shim follows the virtual loop time); clock skew is outside',
         'the API is a stub of patching.patch_obj + watching.infinite_watch applying RFC 7386 to one shared object',
     ])
+
+
+def replay(ctx: fw.Ctx, body: dict) -> bool:
+    """Re-run the failing input of a replay file against the current tree; True iff the property still fails."""
+    import logging
+    logging.getLogger('kopf').setLevel(logging.CRITICAL + 1)
+    logging.getLogger('asyncio').setLevel(logging.CRITICAL + 1)
+    clock.install()
+    ctx.matchers = {}
+    ctx.findings = []
+    case = body.get('case') or {}
+    if 'scenario' in case and 'steps' in case['scenario']:
+        pn.run_world(ctx, case['scenario'])
+    elif 'scenario' in case:
+        pn.run_scenario(ctx, case['scenario'])
+    elif 'lifetime' in case:
+        res = drive_keepalive(case['lifetime'], case['jitter'])
+        ts = [t for t, _ in res['touches']]
+        period = ts[1] - ts[0] if len(ts) > 1 else None
+        if period is None or (case['lifetime'] >= 2 and not period < case['lifetime'] * MS) or [rc for _, rc in res['final']] != [None] \
+                or (case['lifetime'] >= 11 and not period <= (case['lifetime'] - 5) * MS):
+            ctx.fail('keepalive', case, observed=res)
+    elif 'cfg' in case and 'status' in case:
+        full = {'name': case['cfg']['name'], 'fail': None, 'malformed': False, **case}
+        monitor_event(ctx, full, drive_event(full))
+    else:
+        print('replay: this file names a broken proof/correspondence only (no failing input)')
+        return False
+    for f in ctx.failures[:3]:
+        print('  still failing:', f['sig'], '-', f['what'])
+    return bool(ctx.failures)
